@@ -26,7 +26,7 @@ import (
 )
 
 type replicaCfg struct {
-	Issuer, RedisAddr, CookieName, CookieSecret, UpstreamURL, ProxyPrefix string
+	Issuer, RedisAddr, CookieName, CookieSecret, UpstreamURL, ProxyPrefix, PKCE string
 	Refresh, Expire                                                       time.Duration
 }
 
@@ -49,6 +49,7 @@ func TestVerifReplicaChild(t *testing.T) {
 	pr.ID, pr.Type, pr.ClientID, pr.ClientSecret = "verif", options.OIDCProvider, tClientID, tClientSecret
 	pr.OIDCConfig.IssuerURL = rc.Issuer
 	pr.OIDCConfig.InsecureSkipNonce = false
+	pr.CodeChallengeMethod = rc.PKCE
 	o.UpstreamServers = options.UpstreamConfig{Upstreams: []options.Upstream{{ID: "root", Path: "/", URI: rc.UpstreamURL}}}
 	o.InjectRequestHeaders = defaultInject()
 	if rc.RedisAddr != "" {
@@ -87,7 +88,7 @@ func (e *testEnv) startReplica() (*replicaProc, error) {
 	for _, u := range e.ups {
 		up = u.srv.URL
 	}
-	rc := replicaCfg{Issuer: e.idp.url(), CookieName: e.opts.Cookie.Name, CookieSecret: e.opts.Cookie.Secret, UpstreamURL: up, ProxyPrefix: e.opts.ProxyPrefix,
+	rc := replicaCfg{Issuer: e.idp.url(), CookieName: e.opts.Cookie.Name, CookieSecret: e.opts.Cookie.Secret, UpstreamURL: up, ProxyPrefix: e.opts.ProxyPrefix, PKCE: e.opts.Providers[0].CodeChallengeMethod,
 		Refresh: e.opts.Cookie.Refresh, Expire: e.opts.Cookie.Expire}
 	if e.mr != nil {
 		rc.RedisAddr = e.mr.Addr()
